@@ -1,9 +1,9 @@
 #!/usr/bin/env python3
 """Re-runs the property check(s) against an already stored seeded change and updates its meta.json.
-usage: tools/recheck_seeded.py <name under /verif/seeded> <ID> [more IDs]   (uses scratch worktree /tmp/wt-main)"""
+usage: tools/recheck_seeded.py <name under /verif/seeded> <ID> [more IDs]   (uses scratch worktree /tmp/wt-mine)"""
 import json, os, re, subprocess, sys, time
 name, ids = sys.argv[1], sys.argv[2:]
-wt = os.environ.get("WT", "/tmp/wt-main")
+wt = os.environ.get("WT", "/tmp/wt-mine")
 d = os.path.join("/verif/seeded", name)
 meta = json.load(open(os.path.join(d, "meta.json")))
 def sh(cmd, cwd=wt, e=None, timeout=3600):
